@@ -116,7 +116,7 @@ func (u *Unit) argShape(e ast.Expr, at ast.Node, depth int) string {
 	case *ast.UnaryExpr:
 		return x.Op.String() + u.argShape(x.X, at, depth)
 	case *ast.StarExpr:
-		return u.argShape(x.X, at, depth)
+		return "*" + u.argShape(x.X, at, depth)
 	case *ast.BinaryExpr:
 		return u.argShape(x.X, at, depth) + x.Op.String() + u.argShape(x.Y, at, depth)
 	case *ast.IndexExpr:
